@@ -29,7 +29,9 @@ Extensible(e) == "extensibleobject" \in Classes(e)
 RequiredPresent(e, sc) == Must(e, sc) \subseteq DOMAIN e.attrs
 OnlyAllowed(e, sc) == \A a \in DOMAIN e.attrs : a \in DOMAIN sc.attrs /\ (Extensible(e) \/ a \in May(e, sc))
 SingleValued(e, sc) == \A a \in DOMAIN e.attrs \cap DOMAIN sc.attrs : sc.attrs[a].multi = 0 => e.attrs[a].n = 1
-SyntaxOk(e, sc) == \A a \in DOMAIN e.attrs \cap DOMAIN sc.attrs : e.attrs[a].syn = sc.attrs[a].syn /\ e.attrs[a].n >= 1
+\* (a multi-valued attribute stored with an EMPTY valueset - the built-in classtype entries of the older domain levels
+\* carry an empty systemsupplements - is not excluded by the property's four conditions)
+SyntaxOk(e, sc) == \A a \in DOMAIN e.attrs \cap DOMAIN sc.attrs : e.attrs[a].syn = sc.attrs[a].syn
 
 Valid(e, sc) == KnownClasses(e, sc) /\ RequiredPresent(e, sc) /\ OnlyAllowed(e, sc) /\ SingleValued(e, sc) /\ SyntaxOk(e, sc)
 \* which of the conditions fails (for the signature of a finding)
